@@ -50,11 +50,11 @@ for pid, text in sorted(P2.items()):
         "technique": "contract-based deductive verification per generated program: contracts derived from the XML by xmlsem, VCs from the ast of the emitted classes, z3 (sequences, uninterpreted folds with ground unfolding)",
     })
 P3 = {
- "C01": ("exploration", "BOUNDED stand-in (not proved): the deductive lemma RT_T (chaining the proved C04/C06 pair lemmas through the emitted deserialize over WIRE_T in piece normal form) is not built; decided by runtime round trips of seeded valid values over every wire-unambiguous class of the realistic corpus and the enumerated specs. The ingredients it rests on are proved elsewhere: C02 (bytes = WIRE_T), C03 (deserialize = reading rules), C04/C06/C07 (writer->reader pairs, chunk isolation, codec)",
+ "C01": ("exploration", "MOSTLY BOUNDED: RT_T is discharged deductively only for fixed-size classes (ints / bools / enums, nested fixed structs, literal-length arrays: emitted deserialize executed over the interpreted WIRE_T bytes, counts in evidence under proved_for_fixed_size_classes); for all other classes the general lemma (piece normal form over the C04/C06 pair lemmas) is not built and the property is decided by runtime round trips of seeded valid values over every wire-unambiguous class of the realistic corpus and the enumerated specs. The ingredients it rests on are proved elsewhere: C02 (bytes = WIRE_T), C03 (deserialize = reading rules), C04/C06/C07 (writer->reader pairs, chunk isolation, codec)",
          "runtime-checked round-trip contract on the real generated classes (bounded stand-in for the contract-based proof)"),
  "C14": ("exploration", "BOUNDED stand-in (not proved): ProtocolEnumMeta.__call__ is six lines delegating to CPython's EnumMeta.__call__ / int.__new__, whose behaviour a VC could only assume; its runtime contract (the statement, clause by clause) is evaluated on hand-written and generated enums x integers under both installed interpreters",
          "runtime-checked contract on the real ProtocolEnumMeta.__call__ under CPython 3.11 and 3.12 (bounded stand-in)"),
- "C17": ("exploration", "BOUNDED stand-in for 'wherever it occurs': the real generator is run on the statement's rule catalogue x nesting positions x files and on every enumerated instruction sequence the independent rule reader xmlsem.wellformed finds ill-formed; it must raise and write no module for the offending class",
+ "C17": ("exploration", "PROVED leaf guards + BOUNDED placement: 16 generator functions under contract and discharged (the eight FieldCodeGenerator._validate_* as `raises <=> RULE`, _check_optional_field, _generate_break, _make_packet_suffix, _create_type_with_specified_length; generate_instruction and _generate_field/_array/_length as one-directional must_raise contracts with opaque calls); 'wherever it occurs' is bounded: the real generator is run on the statement's rule catalogue x nesting positions x files and on every enumerated instruction sequence the independent rule reader xmlsem.wellformed finds ill-formed; it must raise and write no module for the offending class",
          "runtime post-condition of the real generator over a rule-violation catalogue (bounded stand-in)"),
  "C18": ("exploration", "BOUNDED stand-in (not proved): generation over valid trees x hash seeds x shuffled directory enumeration x both interpreters x pre-populated output must be byte-identical, complete and importable with every declared type exported; the code carrying this (set iteration, sorting, list surgery during iteration, os.walk, file writes) is outside the VC generator's fragment",
          "runtime-checked contracts on ProtocolCodeGenerator.generate / CodeBlock.to_string outputs (bounded stand-in)"),
